@@ -57,6 +57,11 @@ CLAIMED = {
          "temporary index attribute removed'; (c) traversals, searches, basic_render and the PlantUML helpers pass a syntactic effect analysis: no "
          "attribute store/delete, in-place operations only on containers they allocate, every callee read-only by (a) or a user callback (A7). "
          "nrpickler.dumps / pyvis internals: assumed not to write to edgegraph objects (A10)."),
+ "C16": ("proof", "6/C16", "basic_render is verified against a string-level specification (z3 strings): None for an empty universe, otherwise "
+         "'\\n'.join of one line per member in universe order (or sorted by the key), line(v) = r(v) ++ ' -> ' ++ ', '.join(r(w) for w in FORWARD "
+         "neighbours of v in neighbors() order (or sorted)), r = rfunc or repr. Inner-loop invariant: line = r(v) ++ ' -> ' ++ trailing-comma join, "
+         "with trailing = canonical join ++ ', ' for a non-empty prefix, so the final strip is exact and a vertex without neighbours keeps its arrow. "
+         "sorted(key=) is an opaque function shared by code and spec (A9)."),
  "C19": ("proof", "6/C19", "Both setters are verified (mutually, each against the other's contract) against a total reference model of "
          "'bind'; I19 is proved preserved by the setters and Universe.__init__; 'every assignment succeeds' = the contracts have no "
          "exceptional outcome and every implicit AttributeError/IndexError path is proved infeasible; rule getters return the stored "
